@@ -121,6 +121,21 @@ func (fc *FuncCtx) theoryCall(st *State, bind string, fn *types.Func, recv *Val,
 				c := args[0].T
 				x0, x1 := deref(args[1]), deref(args[2])
 				return set(Ite(Eq(c, IntLit(0)), x0, x1))
+			case "SetUint64":
+				// field elements as integers: the element denoted by a small constant is that integer
+				if rl.Sort.Kind == "Int" && len(args) == 1 && args[0].T != nil && args[0].T.Sort.Kind == "Int" {
+					fc.note("field SetUint64 modelled as the integer itself (ring homomorphism from the integers)")
+					return set(args[0].T)
+				}
+			case "SetBytes":
+				// the element denoted by a byte string: an uninterpreted function of the bytes; ok is 0 or 1
+				if rl.Sort.Kind == "Int" && len(args) == 1 && args[0].T != nil && args[0].T.Sort.Kind == "Slice" {
+					fc.note("field SetBytes modelled as an uninterpreted function of the byte string (generated field code)")
+					fc.writeLoc(st, rl, fc.nameTerm(st, "t", App("fe$bytes", SInt, args[0].T)))
+					okc := fc.freshConst("setok", SInt)
+					st.assume(Or(Eq(okc, IntLit(0)), Eq(okc, IntLit(1))))
+					return Val{T: okc, Typ: resT}, true
+				}
 			case "CondAssign":
 				c := args[0].T
 				return set(Ite(Eq(c, IntLit(0)), fc.readLoc(st, rl), deref(args[1])))
